@@ -182,6 +182,58 @@ def rule_root_at_zero(repo: Repo, rep: Report) -> int:
     return n
 
 
+def rule_where_guard(repo: Repo, rep: Report) -> int:
+    """`torch.where(q > 0, f(q), c)` does not protect the backward pass: the arm that is not selected is still differentiated,
+    and where f has a singularity (a division by q, a root, a logarithm or a negative power of q) its derivative is infinite
+    at q = 0, 0 * inf = NaN, and every parameter upstream gets a NaN gradient.  Constraints and channels sit between encoder
+    and decoder, and an exactly-zero stream (a switched-off antenna, zero padding, a dead filter) is an ordinary input."""
+    from ..astutil import Inliner
+
+    n = 0
+    mods = [mi for mi in repo.modules.values() if mi.relpath.startswith("kaira/constraints/") or mi.relpath == "kaira/channels/analog.py"]
+    for mi in mods:
+        funcs = list(mi.functions.values()) + [m_ for c_ in mi.classes.values() for m_ in c_.methods.values()]
+        for fi in funcs:
+            wheres = [c for c in ast.walk(fi.node) if isinstance(c, ast.Call) and (call_name(c) or "") == "torch.where" and len(c.args) == 3]
+            if not wheres:
+                continue
+            inl = Inliner(fi)
+            for w in wheres:
+                try:
+                    cond, arm_t, arm_f = inl.inline(w.args[0]), inl.inline(w.args[1]), inl.inline(w.args[2])
+                except Exception:
+                    continue
+                # guarded quantity: q in `q > 0`, `q != 0`, `q > eps`, `q >= eps` (and the arm selected where it holds)
+                guards = []
+                for cmp_ in ast.walk(cond):
+                    if isinstance(cmp_, ast.Compare) and len(cmp_.ops) == 1 and isinstance(cmp_.comparators[0], (ast.Constant, ast.Name)):
+                        rhs = cmp_.comparators[0]
+                        small = (isinstance(rhs, ast.Constant) and isinstance(rhs.value, (int, float)) and not isinstance(rhs.value, bool) and 0 <= rhs.value <= 1e-3) or (isinstance(rhs, ast.Name) and "eps" in rhs.id.lower())
+                        if small and isinstance(cmp_.ops[0], (ast.Gt, ast.GtE, ast.NotEq)):
+                            guards.append((unparse(cmp_.left), arm_t))
+                        elif small and isinstance(cmp_.ops[0], (ast.Lt, ast.LtE, ast.Eq)):
+                            guards.append((unparse(cmp_.left), arm_f))
+                for q, arm in guards:
+                    hit = None
+                    for x in ast.walk(arm):
+                        if isinstance(x, ast.BinOp) and isinstance(x.op, ast.Div) and unparse(x.right) == q:
+                            hit = x
+                        elif isinstance(x, ast.Call) and (call_name(x) or unparse(x.func)).split(".")[-1] in ("sqrt", "rsqrt", "log", "log2", "log10", "reciprocal") and (q in unparse(x)):
+                            inner = x.args[0] if x.args else (x.func.value if isinstance(x.func, ast.Attribute) else None)
+                            if inner is not None and not any(isinstance(b, ast.BinOp) and isinstance(b.op, ast.Add) and any(isinstance(o, ast.Constant) and isinstance(o.value, (int, float)) and o.value > 0 for o in (b.left, b.right)) for b in ast.walk(inner)):
+                                hit = x
+                        elif isinstance(x, ast.BinOp) and isinstance(x.op, ast.Pow) and unparse(x.left) == q and isinstance(x.right, (ast.Constant, ast.UnaryOp)) and unparse(x.right).startswith("-"):
+                            hit = x
+                        if hit is not None:
+                            break
+                    n += 1
+                    if hit is not None:
+                        rep.violation("GRAD", fi, f"{fi.name}: {unparse(w)[:80]}", f"`{unparse(hit)[:60]}` is singular where `{q}` is 0, and `torch.where` only masks the VALUE there: the unselected arm is still differentiated, its derivative is infinite, and 0 * inf = NaN reaches every parameter upstream whenever a stream is exactly zero (keep the offset inside: `/ ({q} + eps)`)", node=w)
+                        break
+                    rep.ok("GRAD", fi, f"{fi.name}: {unparse(w)[:80]}", f"the arm selected where `{q}` is positive has no singularity at 0", node=w, nontrivial=False)
+    return n
+
+
 def rule_shared_flags(repo: Repo, rep: Report) -> int:
     """Multi-user image models choose `self.<parts>[0]` (one shared module) or `self.<parts>[i]` (one per device) by the flag
     `self.shared_<part>`; selecting the encoders by the decoders' flag (or vice versa) sends every device through module 0
@@ -616,6 +668,7 @@ def run(repo: Repo, rep: Report, tier: str) -> None:
     n = rule_grad(repo, rep)
     n += rule_pipeline(repo, rep)
     n += rule_root_at_zero(repo, rep)
+    n += rule_where_guard(repo, rep)
     n += rule_shared_flags(repo, rep)
     n += rule_conv(repo, rep)
     n += rule_filters(repo, rep)
